@@ -10,5 +10,8 @@ cd "$V/engine" || exit 1
 cp /repo/go.sum go.sum
 go run ./cmd/mkoverlay -repo /repo -shim "$V/engine/shim" -out "$V/.work/setup" || exit 1
 go build -tags verif -overlay "$V/.work/setup/overlay.json" -o "$V/.work/setup/check" ./cmd/check || exit 1
+# warm the -race build used by the auxiliary pass of C14
+go run ./cmd/mkoverlay -repo /repo -noshim -out "$V/.work/setup" || exit 1
+go build -race -tags verif -overlay "$V/.work/setup/overlay.json" -o "$V/.work/setup/racepass" ./cmd/racepass || exit 1
 rm -rf "$V/.work/setup"
 echo "setup ok"
